@@ -23,24 +23,32 @@ LEVEL_TEXT = ("Coq theorems over (a) a world model {python stream, numpy stream,
               "footprints avoid the OS is reproducible after seed(s) whatever the prior world, a call with an explicit-generator "
               "footprint leaves both global streams untouched and depends on that generator only; (b) the reference graph of the "
               "whole package regenerated from the source on every run: every anchored stochastic component reaches only its own "
-              "generator, no function of the package reaches OS entropy, every function that accepts rng is explicit-only "
-              "up to the named root causes (known findings); (c) a bit-exact MT19937 model of prng.seed/spawn. The model is tied "
+              "generator (this now includes the subset optimisers built on pymoo_addon's sampling/crossover/mutation operators, the 8 selection "
+              "protocols' select() and default-optimiser setters, the random-selection problem constructors, Generalized1NormGenomicSelection.select "
+              "and the legacy set GA, all repaired: their former root causes are proved explicit-only without exception, with regression "
+              "witnesses about the former code), no function of the package reaches OS entropy, every function that accepts rng is explicit-only "
+              "up to the named root causes of the findings that remain known (memetic mutation operators, helpers without an rng parameter, deap's "
+              "selTournamentDCD); (c) a bit-exact MT19937 model of prng.seed/spawn. The model is tied "
               "to the code by evaluating it inside Coq against the implementation (seed/spawn states bit for bit; observed stream "
               "movements and reproducibility of every stochastic API against the static footprints)")
 LEVEL_NOTE = ("trusted: Coq kernel + vm_compute; the ast translator (over-approximating reference graph: attribute access on objects of "
               "unknown class is linked to every member of that name; methods invoked implicitly by operators are checked separately "
-              "to be source-free); hand-entered third-party facts (pymoo 0.6.2 minimize() seeds default_rng(seed), None without a seed argument; deap "
-              "selTournamentDCD uses python's random); numpy/CPython generators themselves; theorems are about the Gallina "
+              "to be source-free); hand-entered third-party facts (pymoo 0.6.2 minimize() seeds default_rng(seed), None without a seed argument, "
+              "and hands that generator to every operator as random_state; deap selTournamentDCD uses python's random); numpy/CPython generators themselves; theorems are about the Gallina "
               "model, the tie to the code is the regenerated table plus differential runs on generated inputs")
 TECHNIQUE = "Coq proof over a regenerated footprint table + bit-exact MT19937 seed model; in-Coq vm_compute correspondence with dynamic runs"
 RULE = ("case kinds from one PRNG: seedmodel (seed in boundary set {0,1,2^32-1,2^32,2^64,negative,multi-word} or random up to 2^96; spawn "
         "requests incl. None/0/several, sbits 32/64/128) ; repro (program of 1-3 stochastic components with rng=None, two different prior "
         "histories of python/numpy draws, reseeding, other components) ; isolated (component handed a Generator or RandomState, global "
         "streams perturbed between two runs from equal generator states); every mating protocol, G_E_Phenotyping, sampling.py, all 8 "
-        "configuration classes, spawn, apply_jitter, EMBV, every optimiser; non-trivial = the component consumed randomness "
+        "configuration classes, spawn, apply_jitter, EMBV, every optimiser, selection protocols of all four decision-space kinds (deterministic and "
+        "default optimisers, 1 and 2 objectives, mate protocols with the optimisation stubbed), the four random selection protocols, "
+        "Generalized1NormGenomicSelection, OptimalContribution problem construction on a singular relationship matrix; non-trivial = the component consumed randomness "
         "(some stream moved); distinct by SHA-256 of the case")
 TRUSTED = ["harness/translate/c08_entropy.py (ast translator, fail closed on unclassified references to entropy-bearing modules)",
            "pymoo 0.6.2 Algorithm.setup: random_state = default_rng(seed), seed None unless passed to minimize(): OS entropy iff a minimize() call site passes no seed (entered by hand, checked syntactically at every call site, cross-checked dynamically)",
+           "pymoo 0.6.2 operators receive random_state = the algorithm's generator (Operator.do / Mating.do): a pybrops operator that reads random_state from its "
+           "keyword arguments draws from the generator seeded by minimize(seed=...) (entered by hand, cross-checked dynamically by the isolation runs of the subset optimisers)",
            "deap.tools.selTournamentDCD draws from python's global random (entered by hand)",
            "CPython random.seed(int)/getrandbits/_randbelow and numpy legacy seeding are modelled (MT19937), not verified; "
            "distributions of numpy generators are opaque (only state movement and output equality are observed)"]
@@ -50,11 +58,16 @@ ASSUMPTIONS = ["seeds are Python ints (seed(None) deliberately takes OS entropy)
 
 # pymoo-based optimisers.  Since /repo commit 0de6ee80 every minimize() seeds pymoo's generator from self.rng.
 GA_PYMOO_OPS = ("BinaryGA", "IntegerGA", "RealGA", "NSGA2BinaryGA", "NSGA2IntegerGA", "NSGA2RealGA")     # pymoo's own operators only: clean
-GA_ADDON = ("SubsetGA", "NSGA2SubsetGA", "NSGA3SubsetGA", "MemeticA", "MemeticB", "MemeticSteepest", "MemeticStochastic")  # + pymoo_addon operators (numpy.random global)
-GA_COMPS = GA_PYMOO_OPS + GA_ADDON
-SELPROT_COMPS = ("SelProtSubset", "SelProtReal", "SelProtBinary", "SelProtInteger")
-HELPER_COMPS = ("RandomSelProt",)
-DEAP_COMPS = ("UnconSetGA", "UnconNSGA2SetGA")
+GA_SUBSET_OPS = ("SubsetGA", "NSGA2SubsetGA", "NSGA3SubsetGA")      # + the subset operators of pymoo_addon: draw from pymoo's random_state since 892609c5
+GA_MEMETIC = ("MemeticA", "MemeticB", "MemeticSteepest", "MemeticStochastic")  # + memetic mutation operators of pymoo_addon (numpy.random global): known finding
+GA_COMPS = GA_PYMOO_OPS + GA_SUBSET_OPS + GA_MEMETIC
+# selection protocols handed their own generator (repaired 92407149): deterministic optimiser / default optimisers (1 and 2 objectives) / mate protocols
+SELPROT_COMPS = ("SelProtSubset", "SelProtSubsetGA", "SelProtSubsetMO", "SelProtReal", "SelProtRealMO", "SelProtBinary", "SelProtBinaryMO",
+                 "SelProtInteger", "SelProtIntegerMO", "MateSelProtSubset", "MateSelProtSubsetMO", "MateSelProtBinary", "MateSelProtBinaryMO",
+                 "MateSelProtInteger", "MateSelProtIntegerMO", "MateSelProtReal", "MateSelProtRealMO")
+HELPER_COMPS = ("RandomSelProt", "RandomSelProtBinary", "RandomSelProtInteger", "RandomSelProtReal", "G1NormSel")   # repaired a09637f1 / 395af6d0
+NO_RNG_HELPER_COMPS = ("OCSProblem",)          # apply_jitter has no rng parameter: known finding C08-helpers-no-rng-param
+DEAP_COMPS = ("UnconNSGA2SetGA",)              # deap.tools.selTournamentDCD: known finding;  UnconSetGA was repaired (a53c4b75)
 
 # ---------------------------------------------------------------------------------------------- fixtures
 def _lrng(seed):
@@ -292,30 +305,95 @@ def _unconhill(par, rng):
     score, soln, misc = algo.optimize(lambda x: 0.0, 3, numpy.arange(9), 1.0)
     return {"decn": _arr(soln)}
 
-def _selprot(kind):
-    """a selection protocol handed its own generator and a deterministic optimiser: the configuration is still sampled globally"""
+def _selprot(kind, nobj=1, default_algo=True):
+    """a selection protocol handed its own generator: the configuration is sampled from it, and so do the default optimisers
+    (kind subset, default_algo False: a deterministic optimiser, so that the only draws are those of the configuration)"""
     def run(par, rng):
-        from pybrops.breed.prot.sel.EstimatedBreedingValueSelection import (EstimatedBreedingValueSubsetSelection, EstimatedBreedingValueRealSelection,
-            EstimatedBreedingValueBinarySelection, EstimatedBreedingValueIntegerSelection)
+        import pybrops.breed.prot.sel.EstimatedBreedingValueSelection as E
         from pybrops.opt.algo.SortingSubsetOptimizationAlgorithm import SortingSubsetOptimizationAlgorithm
-        from pybrops.opt.algo.SteepestDescentSubsetHillClimber import SteepestDescentSubsetHillClimber
-        pg = _pgmat(par); gm = _gmod(par, 1)
+        pg = _pgmat(par); gm = _gmod(par, nobj)
+        gm.beta = numpy.full((1, nobj), 64.0)       # positive breeding values: the optimum never is the empty selection
         bv = gm.gebv(pg)
-        P = {"subset": EstimatedBreedingValueSubsetSelection}[kind]
-        prot = P(ntrait=1, unscale=True, ncross=2, nparent=2, nmating=1, nprogeny=2, nobj=1, ndset_wt=1.0, rng=rng,
-                 soalgo=SortingSubsetOptimizationAlgorithm())
+        P = getattr(E, "EstimatedBreedingValue%sSelection" % kind.capitalize())
+        kw = dict(ntrait=nobj, unscale=True, ncross=par.get("ncross", 2), nparent=2, nmating=1, nprogeny=2, nobj=nobj, ndset_wt=1.0, rng=rng)
+        if not default_algo: kw["soalgo"] = SortingSubsetOptimizationAlgorithm()
+        prot = P(**kw)
+        if default_algo:           # the default optimisers (built by the protocol), shortened
+            for a in (prot.soalgo, prot.moalgo): a.ngen = par.get("ngen", 3); a.pop_size = par.get("pop", 8)
         cfg = prot.select(pgmat=pg, gmat=None, ptdf=None, bvmat=bv, gpmod=None, t_cur=0, t_max=1)
-        return {"xconfig": _arr(cfg.xconfig)}
-    return run
+        out = {"xconfig": _arr(cfg.xconfig)}
+        if par.get("resample"): out["second"] = _arr(cfg.sample_xconfig(return_xconfig=True))
+        return out
+    K = kind.capitalize()
+    st = ["breed.prot.sel.%sSelectionProtocol.%sSelectionProtocol.select" % (K, K)]
+    if default_algo:
+        st += ["breed.prot.sel.%sSelectionProtocol.%sSelectionProtocol.soalgo.setter" % (K, K), "breed.prot.sel.%sSelectionProtocol.%sSelectionProtocol.moalgo.setter" % (K, K)]
+    return (st, True, run)
 
-def _randsel(par, rng):
-    from pybrops.breed.prot.sel.RandomSelection import RandomSubsetSelection
-    from pybrops.opt.algo.SortingSubsetOptimizationAlgorithm import SortingSubsetOptimizationAlgorithm
+def _mateselprot(kind, nobj=1):
+    """the (semi-abstract) mate selection protocols: select() with the optimisation stubbed out, so that the configuration
+    sampling from the protocol's generator is what is exercised"""
+    def run(par, rng):
+        import types
+        K = kind.capitalize()
+        mod = __import__("pybrops.breed.prot.sel.%sMateSelectionProtocol" % K, fromlist=["x"])
+        Base = getattr(mod, "%sMateSelectionProtocol" % K)
+        pg = _pgmat(par)
+        g = _lrng(par.get("dseed", 1) + 9)
+        xmap = g.integers(0, pg.ntaxa, size=(6, 2))
+        decn = {"subset": numpy.array([0, 2, 4]), "binary": numpy.array([1, 0, 1, 1, 0, 1]), "integer": numpy.array([2, 0, 1, 1, 0, 1]),
+                "real": numpy.array([0.25, 0.0, 0.125, 0.375, 0.0, 0.25])}[kind]
+        decn2 = decn[::-1].copy() if kind != "subset" else numpy.array([1, 3, 5])
+        class Stub(Base):
+            def problem(self, *a, **k): raise NotImplementedError
+            def sosolve(self, **k): return types.SimpleNamespace(soln_decn=numpy.stack([decn]), decn_space_xmap=xmap)
+            def mosolve(self, **k):
+                return types.SimpleNamespace(soln_decn=numpy.stack([decn, decn2]), soln_obj=numpy.array([[1.0, 2.0], [2.0, 1.5]]), decn_space_xmap=xmap)
+        Stub.__abstractmethods__ = frozenset()
+        prot = Stub(ncross=par.get("ncross", 3), nparent=2, nmating=1, nprogeny=2, nobj=nobj, ndset_wt=1.0, rng=rng)
+        cfg = prot.select(pgmat=pg, gmat=None, ptdf=None, bvmat=None, gpmod=None, t_cur=0, t_max=1)
+        return {"xconfig": _arr(cfg.xconfig), "second": _arr(cfg.sample_xconfig(return_xconfig=True))}
+    K = kind.capitalize()
+    return (["breed.prot.sel.%sMateSelectionProtocol.%sMateSelectionProtocol.select" % (K, K)], True, run)
+
+def _randsel(kind):
+    def run(par, rng):
+        import pybrops.breed.prot.sel.RandomSelection as R
+        from pybrops.opt.algo.SortingSubsetOptimizationAlgorithm import SortingSubsetOptimizationAlgorithm
+        pg = _pgmat(par)
+        P = getattr(R, "Random%sSelection" % kind.capitalize())
+        kw = dict(ntrait=par.get("ntrait", 1), ncross=2, nparent=2, nmating=1, nprogeny=2, nobj=par.get("ntrait", 1), ndset_wt=1.0, rng=rng)
+        if kind == "subset": kw["soalgo"] = SortingSubsetOptimizationAlgorithm()
+        prot = P(**kw)
+        prob = prot.problem(pgmat=pg, gmat=None, ptdf=None, bvmat=None, gpmod=None, t_cur=0, t_max=1)
+        return {"rbv": _arr(prob.rbv)}
+    return (["breed.prot.sel.RandomSelection.Random%sSelection.problem" % kind.capitalize()], True, run)
+
+def _g1norm(par, rng):
+    """legacy protocol: hill climber (draws from the protocol's generator), then the selected parents are shuffled"""
+    from pybrops.breed.prot.sel.UnconstrainedGeneralized1NormGenomicSelection import Generalized1NormGenomicSelection
+    from pybrops.core.random.prng import global_prng
+    pg = _pgmat(par); gm = _gmod(par, 1)
+    with warnings.catch_warnings():
+        warnings.simplefilter("ignore")
+        prot = Generalized1NormGenomicSelection(nparent=par.get("nparent", 3), ncross=1, nprogeny=2, rng=(rng if rng is not None else global_prng))
+        out = prot.select(pgmat=pg, gmat=pg, ptdf=None, bvmat=None, gpmod=gm, t_cur=0, t_max=1)
+    return {"sel": _arr(out[1])}
+
+def _ocs_problem(par, rng):
+    """OptimalContributionSubsetSelection.problem on a singular relationship matrix: apply_jitter (no rng parameter) draws"""
+    from pybrops.breed.prot.sel.OptimalContributionSelection import OptimalContributionSubsetSelection
+    from pybrops.popgen.cmat.fcty.DenseMolecularCoancestryMatrixFactory import DenseMolecularCoancestryMatrixFactory
+    par = dict(par); par["ntaxa"] = 6
     pg = _pgmat(par)
-    prot = RandomSubsetSelection(ntrait=1, ncross=2, nparent=2, nmating=1, nprogeny=2, nobj=1, ndset_wt=1.0, rng=rng,
-                                 soalgo=SortingSubsetOptimizationAlgorithm())
-    prob = prot.problem(pgmat=pg, gmat=None, ptdf=None, bvmat=None, gpmod=None, t_cur=0, t_max=1)
-    return {"rbv": _arr(prob.rbv)}
+    pg.mat[:, 1, :] = pg.mat[:, 0, :]; pg.mat[:, 3, :] = pg.mat[:, 2, :]          # duplicated taxa
+    gm = _gmod(par, 1); bv = gm.gebv(pg)
+    with warnings.catch_warnings():
+        warnings.simplefilter("ignore")
+        prot = OptimalContributionSubsetSelection(ntrait=1, cmatfcty=DenseMolecularCoancestryMatrixFactory(), unscale=True, ncross=2, nparent=2,
+                                                  nmating=1, nprogeny=2, nobj=2, rng=rng)
+        prob = prot.problem(pgmat=pg, gmat=pg, ptdf=None, bvmat=bv, gpmod=None, t_cur=0, t_max=1)
+    return {"C": _arr(numpy.asarray(prob.C))}
 
 COMPONENTS = {
     "TwoWayCross": _mate("TwoWayCross", 2), "TwoWayDHCross": _mate("TwoWayDHCross", 2),
@@ -357,8 +435,19 @@ COMPONENTS = {
     "MemeticStochastic": _algo("NSGA2MemeticSubsetGeneticAlgorithm", "NSGA2StochasticDescentSubsetGeneticAlgorithm", "subset", 2),
     "UnconSetGA": _uncon("UnconstrainedSetGeneticAlgorithm", "UnconstrainedSetGeneticAlgorithm", 1),
     "UnconNSGA2SetGA": _uncon("UnconstrainedNSGA2SetGeneticAlgorithm", "UnconstrainedNSGA2SetGeneticAlgorithm", 2),
-    "SelProtSubset": (["breed.prot.sel.SubsetSelectionProtocol.SubsetSelectionProtocol.select"], True, _selprot("subset")),
-    "RandomSelProt": (["breed.prot.sel.RandomSelection.RandomSubsetSelection.problem"], True, _randsel),
+    "SelProtSubset": _selprot("subset", 1, False),
+    "SelProtSubsetGA": _selprot("subset", 1), "SelProtSubsetMO": _selprot("subset", 2),
+    "SelProtReal": _selprot("real", 1), "SelProtRealMO": _selprot("real", 2),
+    "SelProtBinary": _selprot("binary", 1), "SelProtBinaryMO": _selprot("binary", 2),
+    "SelProtInteger": _selprot("integer", 1), "SelProtIntegerMO": _selprot("integer", 2),
+    "MateSelProtSubset": _mateselprot("subset"), "MateSelProtSubsetMO": _mateselprot("subset", 2),
+    "MateSelProtBinary": _mateselprot("binary"), "MateSelProtBinaryMO": _mateselprot("binary", 2),
+    "MateSelProtInteger": _mateselprot("integer"), "MateSelProtIntegerMO": _mateselprot("integer", 2),
+    "MateSelProtReal": _mateselprot("real"), "MateSelProtRealMO": _mateselprot("real", 2),
+    "RandomSelProt": _randsel("subset"), "RandomSelProtBinary": _randsel("binary"), "RandomSelProtInteger": _randsel("integer"),
+    "RandomSelProtReal": _randsel("real"),
+    "G1NormSel": (["breed.prot.sel.UnconstrainedGeneralized1NormGenomicSelection.Generalized1NormGenomicSelection.select"], True, _g1norm),
+    "OCSProblem": (["breed.prot.sel.OptimalContributionSelection.OptimalContributionSubsetSelection.problem"], True, _ocs_problem),
 }
 
 # ---------------------------------------------------------------------------------------------- driver
@@ -449,9 +538,10 @@ SEED_EDGE = [0, 1, 2, 2 ** 31, 2 ** 32 - 1, 2 ** 32, 2 ** 32 + 1, 2 ** 63, 2 ** 
 CLEAN_RNG = ["TwoWayCross", "TwoWayDHCross", "ThreeWayCross", "ThreeWayDHCross", "FourWayCross", "FourWayDHCross", "SelfCross",
              "G_E_Phenotyping", "sus", "sus2d", "tiled_choice_norepl", "tiled_choice_repl", "axis_shuffle", "outcross_shuffle",
              "SubsetCfg", "BinaryCfg", "IntegerCfg", "RealCfg", "SubsetMateCfg", "BinaryMateCfg", "IntegerMateCfg", "RealMateCfg",
-             "HillClimber", "UnconHill"] + list(GA_PYMOO_OPS)
+             "HillClimber", "UnconHill"] + list(GA_PYMOO_OPS) \
+            + list(GA_SUBSET_OPS) + list(SELPROT_COMPS) + list(HELPER_COMPS) + ["UnconSetGA"]          # the repaired components are ordinary cases now
 GLOBAL_ONLY = ["spawn", "apply_jitter", "EMBV", "SortingHillClimber", "SortingAlgo"]
-FINDING_COMPS = list(GA_ADDON) + ["UnconSetGA", "UnconNSGA2SetGA", "SelProtSubset", "RandomSelProt"]
+FINDING_COMPS = list(GA_MEMETIC) + list(DEAP_COMPS) + list(NO_RNG_HELPER_COMPS)
 
 def _rand_hist(rng, heavy=False):
     h = []
@@ -475,6 +565,10 @@ def _rand_par(rng, comp):
     elif comp == "axis_shuffle": par.update({"n": rng.choice([1, 2, 5]), "axis": rng.choice([0, 1])})
     elif comp == "outcross_shuffle": par.update({"n": rng.choice([1, 3, 4])})
     elif comp.endswith("Cfg"): par.update({"ncross": rng.choice([1, 2, 3, 5])})
+    elif comp.startswith("SelProt"): par.update({"ncross": rng.choice([1, 2, 3]), "resample": rng.choice([0, 1])})
+    elif comp.startswith("MateSelProt"): par.update({"ncross": rng.choice([1, 2, 3, 5])})
+    elif comp.startswith("RandomSelProt"): par.update({"ntrait": rng.choice([1, 2]), "ntaxa": rng.choice([2, 4, 6])})
+    elif comp == "G1NormSel": par.update({"nparent": rng.choice([1, 2, 3])})
     elif comp == "spawn": par.update({"reqs": rng.choice([[None], [1], [0, 2], [None, 3]])})
     elif comp == "apply_jitter": par.update({"n": rng.choice([2, 3, 4])})
     elif comp == "EMBV": par.update({"nprogeny": rng.choice([1, 3]), "nrep": rng.choice([1, 2])})
@@ -613,17 +707,15 @@ def classify(case, out, clauses):
     # isolated: exactly one kind of culprit in the program
     kinds = set()
     for c in comps:
-        if c in GA_ADDON: kinds.add("C08-ga-ignores-rng")
-        elif c in ("UnconSetGA", "UnconNSGA2SetGA"): kinds.add("C08-deap-python-random")
-        elif c == "SelProtSubset": kinds.add("C08-selcfg-global-rng")
-        elif c == "RandomSelProt": kinds.add("C08-helpers-global-rng")
+        if c in GA_MEMETIC: kinds.add("C08-memetic-ignores-rng")
+        elif c in DEAP_COMPS: kinds.add("C08-deap-python-random")
+        elif c in NO_RNG_HELPER_COMPS: kinds.add("C08-helpers-no-rng-param")
     if len(kinds) != 1: return None
     fid = kinds.pop()
-    culprit = first(GA_ADDON + ("UnconSetGA", "UnconNSGA2SetGA", "SelProtSubset", "RandomSelProt"))
+    culprit = first(GA_MEMETIC + DEAP_COMPS + NO_RNG_HELPER_COMPS)
     if steps and min(steps) < culprit: return None
     if fid == "C08-deap-python-random" and any("numpy's global" in c for c in clauses): return None
-    if fid in ("C08-selcfg-global-rng", "C08-helpers-global-rng") and any("python's global" in c for c in clauses): return None
-    if fid == "C08-ga-ignores-rng" and (any("python's global" in c for c in clauses) or not any("numpy's global" in c for c in clauses)): return None
+    if fid in ("C08-memetic-ignores-rng", "C08-helpers-no-rng-param") and (any("python's global" in c for c in clauses) or not any("numpy's global" in c for c in clauses)): return None
     return fid
 
 def nontrivial(case, out):
